@@ -13,11 +13,11 @@ from . import common
 
 # property -> (module, per-obligation wall cap quick, thorough)
 REGISTRY = {
-    "C01": ("harness.p_expr", 120, 900),
-    "C04": ("harness.p_expr", 120, 900),
-    "C05": ("harness.p_expr", 120, 900),
-    "C06": ("harness.p_expr", 120, 900),
-    "C10": ("harness.p_expr", 120, 900),
+    "C01": ("harness.p_expr", 25, 900),
+    "C04": ("harness.p_expr", 25, 900),
+    "C05": ("harness.p_expr", 25, 900),
+    "C06": ("harness.p_expr", 25, 900),
+    "C10": ("harness.p_expr", 25, 900),
 }
 
 
